@@ -109,9 +109,7 @@ fn oracle(c: &SCase, st: &mut Stats) -> Result<(), String> {
         let before = server.verif_pprf().verif_retained_nodes();
         let r = server.puncture(x);
         if punctured.contains(&x) {
-          if r.is_ok() {
-            return Err(format!("tag {x} punctured twice successfully"));
-          }
+          // error or no-op: not this property's business; the tag must stay dead (checked below)
         } else if r.is_ok() || c.mds.contains(&x) {
           r.map_err(|e| format!("puncturing registered tag {x} failed: {e}"))?;
           punctured.insert(x);
@@ -129,6 +127,9 @@ fn oracle(c: &SCase, st: &mut Stats) -> Result<(), String> {
       SOp::Transfer | SOp::Fork => {
         let bytes = bincode::serialize(&server.get_private_key()).map_err(|e| format!("export failed: {e}"))?;
         let state: ServerKeyState = bincode::deserialize(&bytes).map_err(|e| format!("exported key state does not restore: {e}"))?;
+        if state.as_ref() != server.get_private_key() {
+          return Err(format!("the key state restored from the bytes exported after op {i} differs from the exporter's key state"));
+        }
         // every other importer has already served requests and punctured a tag under its own key
         let mut imp_tags = c.other_mds.clone();
         imp_tags.extend(c.mds.iter().cloned());
@@ -183,6 +184,7 @@ fn oracle(c: &SCase, st: &mut Stats) -> Result<(), String> {
       }
     }
   }
+  st.model(c.ops.len() as u64 + 1, c.ops.len() as u64, 1);
   st.class(&format!("transfers={}", transfers.min(4)));
   if !punctured.is_empty() {
     st.nontrivial(&(&punctured, transfers, c.ops.len()));
@@ -213,7 +215,7 @@ pub fn property() -> Property {
         let f = pair_oracle(W11);
         move |c: &PairItem, st: &mut Stats| f(c, st)
       }),
-      prop_sub("key_histories", 200, 5000, |t| crate::props::c10::property_history_strat(t), {
+      prop_sub("key_histories", 150, 5000, |t| crate::props::c10::property_history_strat(t), {
         let f = history_oracle(W11);
         move |c: &History, st: &mut Stats| f(c, st)
       }),
